@@ -38,4 +38,13 @@ def deleteVar (o : Objs) (v : String) : Objs :=
 /-- every bias is registered with each variable it depends on -/
 def Registered (o : Objs) (v : String) : Prop := ∀ p ∈ o.biases, v ∈ p.2 → p.1 ∈ o.refs v
 
+/-- a deletion requested through the script -/
+inductive DelOp where
+  | var (v : String)
+  | bias (b : String)
+
+def applyDel (o : Objs) : DelOp → Objs
+  | .var v => deleteVar o v
+  | .bias b => deleteBias o b
+
 end Cv.Objects
